@@ -194,3 +194,13 @@ Definition enc (p : prog) : list nat :=
 
 Definition unit_enc (rs : list var) (bodies : list (list stmt)) : list nat :=
   flat_map (fun k => enc (entry_prog rs bodies k)) (seq 0 (length bodies)).
+
+(* ------------------------------------------------------------------ fitted state aliasing caller storage *)
+(* attributes that may hold a reference to a caller-owned cell after some history (reporting; every
+   other attribute provably never does: EffectsP.untainted_attr_not_caller) *)
+Definition tainted_attrs (p : prog) : list attr := PS.elements (ta (analyse p)).
+
+(* per class: [closure check passed; tainted attributes...] for the program of all methods *)
+Definition unit_tainted (rs : list var) (bodies : list (list stmt)) : list nat :=
+  let p := mkProg rs [] (concat bodies) [] in
+  Nat.b2n (closed_ok p) :: map Pos.to_nat (tainted_attrs p).
